@@ -521,6 +521,22 @@ class SysFs(EngineBase):
         for n in norm.values():
             if isinstance(n.get("data"), bytes):
                 n["data"] = n["data"].decode("latin-1")
+        if plan.get("warm_hide"):
+            # an earlier call of the same function saw another tree (a CPU /
+            # chip / battery that was not there yet): the judged call must
+            # describe the tree it runs against
+            hidden = {p_: k.files.pop(p_) for p_ in list(k.files)
+                      if p_.startswith(plan["warm_hide"])}
+            k._dirs = None
+            k.begin_op(5)
+            try:
+                self.call(psutil, subject)
+            except BaseException as e:  # noqa: BLE001
+                if is_harness_exc(e):
+                    raise
+            k.end_op()
+            k.files.update(hidden)
+            k._dirs = None
         acc0 = len(k.acclog)
         k.begin_op(1)
         try:
@@ -713,6 +729,16 @@ class SysFs(EngineBase):
             u["evals"] += 1
             if not self._absorb(u, base, dry, (subject, "nofault", "-")):
                 continue
+            sysf = sorted(p_ for p_ in dry.get("touched") or []
+                          if p_ in world["files"] and p_.startswith("/sys"))
+            if sysf and subject not in ("boot_time", "boot_time_history"):
+                for _ in range(2):
+                    d_ = rng.choice(sysf).rsplit("/", 1)[0] + "/"
+                    wp = dict(base, warm_hide=d_)
+                    r = W.execute_forked(wp)
+                    u["evals"] += 1
+                    self._absorb(u, wp, r, (subject, "after_other_tree",
+                                            "-"))
             if subject not in ("temps", "temps_f", "fans", "battery",
                                "cpu_freq_percpu"):
                 continue
